@@ -98,7 +98,13 @@ def norm(x, depth=0):
     if isinstance(x, pt.Interval):
         return _interval(x)
     if isinstance(x, pt.Fragment):
-        return ['frag', {f: norm(getattr(x, f), depth + 1) for f in FRAG_FIELDS}]
+        d = {f: norm(getattr(x, f), depth + 1) for f in FRAG_FIELDS}
+        # Fragment.__iter__ / to_dict() enumerate the instance __dict__, so anything a call leaves there beyond the
+        # declared fields and the two documented cached properties is observable state of the fragment
+        extra = sorted(k for k in vars(x) if k not in FRAG_FIELDS and k not in ('label', 'number'))
+        if extra:
+            d['__dict__extras'] = extra
+        return ['frag', d]
     if isinstance(x, pt.FragmentMatch):
         return ['fmatch', norm(x.fragment, depth + 1), x.mz, x.intensity]
     if isinstance(x, pt.MultiProFormaAnnotation):
@@ -141,6 +147,19 @@ def _is_num(v):
     return isinstance(v, (int, float)) and not isinstance(v, bool)
 
 
+STRICT_EMPTY = [False]
+
+
+def same_strict(a, b, path=''):
+    """like same(), but inside an annotation an empty container and None are DIFFERENT (has_*_mods() tells them
+    apart): used where the question is 'was this very object changed', not 'do these denote the same peptide'"""
+    STRICT_EMPTY[0] = True
+    try:
+        return same(a, b, path)
+    finally:
+        STRICT_EMPTY[0] = False
+
+
 def same(a, b, path='', exc_text=False):
     """Return None if a and b are the same dump, else a short description of the first difference found."""
     if _is_num(a) and _is_num(b):
@@ -164,8 +183,10 @@ def same(a, b, path='', exc_text=False):
             if tag == 'ann' or tag == 'frag':
                 for k in a[1]:
                     x, y = a[1][k], b[1].get(k)
-                    if tag == 'ann':
+                    if tag == 'ann' and not STRICT_EMPTY[0]:
                         x, y = _empty_to_none(x, k), _empty_to_none(y, k)
+                    if tag == 'frag' and k == '__dict__extras':
+                        continue
                     if tag == 'ann' and k in ('internal', 'intervals') and isinstance(x, list) and isinstance(y, list):
                         # the order of the residue-mod dict and of the interval list is not observable state
                         # (the dump itself keeps it, so that a rebuilt twin has the same order)
@@ -173,6 +194,13 @@ def same(a, b, path='', exc_text=False):
                     d = same(x, y, f"{path}.{k}", exc_text)
                     if d:
                         return d
+                if tag == 'frag' and a[1].get('__dict__extras') != b[1].get('__dict__extras'):
+                    return (f"{path}.__dict__: extra entries {a[1].get('__dict__extras')} != "
+                            f"{b[1].get('__dict__extras')} (they show up in to_dict() / dict(fragment))")
+                if tag == 'ann' and STRICT_EMPTY[0]:
+                    for k in b[1]:
+                        if k not in a[1]:
+                            return f"{path}.{k}: only on the right"
                 return None
             if tag == 'exc':
                 if a[1] != b[1]:
@@ -300,7 +328,7 @@ def denorm(nf):
     if tag == 'interval':
         return _mk_interval(nf)
     if tag == 'frag':
-        return pt.Fragment(**{k: denorm(v) for k, v in nf[1].items()})
+        return pt.Fragment(**{k: denorm(v) for k, v in nf[1].items() if k != '__dict__extras'})
     if tag == 'fmatch':
         return pt.FragmentMatch(denorm(nf[1]), nf[2], nf[3])
     if tag == 'enzcfg':
